@@ -42,6 +42,7 @@ RULE += (' Also: an exception thrown into a CLOSED handle reaches nothing (class
 RULE += (' Also: streams whose items are awaitable jobs (never awaited by a handle); aggregations that reject an item (dict over non-pairs) stop right there.')
 RULE += (' Also: a value sent through a handle over a generator that was never advanced is refused and takes nothing.')
 RULE += (' Also: a chain closed before its first item has closed the handles it was given.')
+RULE += (' Also: sum over a handle whose first item cannot be added stops at that item.')
 ASSUMPTIONS = ["laziness of the tools themselves is C05's concern; here the stdlib twin predicts how many items a tool takes",
                "athrow on a LIVE handle is not part of the property's operation list and is not generated; athrow on a closed handle is"]
 EXHAUSTIVE_SUBSPACES = 'all histories of length <= 3 (thorough: 4) over a 13-operation alphabet'
@@ -259,6 +260,7 @@ TOOLS = {
     # follows the rejected item is still on the shared handle
     "dict_rejects_item": ("agg", lambda h: A.dict(h), lambda it: dict(it)),
     "dict_rejects_later_item": ("agg", lambda h: A.dict(A.chain([(0, 0)], h)), lambda it: dict(itertools.chain([(0, 0)], it))),
+    "sum_rejects_item": ("agg", lambda h: A.sum(h), lambda it: sum(it)),
     "set_items": ("agg", lambda h: A.set(h), lambda it: set(it)),
     "tuple_items": ("agg", lambda h: A.tuple(h), lambda it: tuple(it)),
     "sorted_items": ("agg", lambda h: A.sorted(h, key=lambda x: x.key), lambda it: sorted(it, key=lambda x: x.key)),
